@@ -1722,11 +1722,11 @@ func runHistory(t *testing.T, run *emit.Run, idx int) {
 				t.Logf("DISAGREE id=%d cls=%d kind=%d gas=%d/%d vsid=%d nsigs=%d/%d pad=%v stored=%+v", m.id, cls, b.Kind, h.gas[m.id], m.raw.GetGasEstimate(), h.vsid[m.id], len(h.sigs[m.id]), len(m.raw.GetSignData()), m.raw.GetPublicAccessData(), cm)
 			}
 			h.oracle(m.id, b, w, cls, vs, eff, was)
-			if w.kind == 1 && (cls == 1 || cls == 2) { // refused for good: what does the relayer's record say?
+			if w.kind == 1 && (cls == 1 || cls == 2) { // refused for good: count what the relayer's metrix record says (observation only:
+				// the record is not one of the success effects the property lists; the model follows the code and X compares it)
 				for _, rr := range h.observe(cls).relay {
-					if rr[0] == int64(m.id) && rr[1] == 1 {
-						run.Violate("C07:relay-success-recorded-for-refused-tx", fmt.Sprintf("message %d: transaction refused (class %d) but the metrix record of the relayer says WasRelayedSuccessfully", m.id, cls),
-							map[string]any{"part": "B", "seed": run.Seed, "history": append([]string{}, h.log...)})
+					if rr[0] == int64(m.id) {
+						run.Count("B.relay-record-for-refused-tx", fmt.Sprintf("success=%v", rr[1] == 1))
 					}
 				}
 			}
